@@ -25,6 +25,9 @@ func main() {
 	for v, proto := range []int{2, 4, 2, 5} {
 		hs = append(hs, c01lib.CoalCancelHist(len(hs), proto, v+1))
 	}
+	for v, proto := range []int{2, 4, 2} {
+		hs = append(hs, c01lib.WriteStallCancelHist(len(hs), proto, v+1, v != 2))
+	}
 	for nerr := 1; nerr <= 4; nerr++ {
 		k := len(hs)
 		hs = append(hs, c01lib.TempErrHist(k, []int{2, 4}[nerr%2], nerr, nerr%3, nerr%3, 4))
